@@ -263,6 +263,13 @@ def stage2(shapes, s1_meta, s1_model, seed, tier='quick'):
                 cur = img + garbage(rng, sl)
                 add('A', '%s.A%d_%d' % (cid, j, sl), sid, 0, cur, oini, kind='assign', base=cid, repl=other,
                     cur_size=size, repl_size=osize)
+        # ---- a length type that cannot count the bytes available: FlatString<u8> / FlatVec<_, u8> over more than
+        #      255 slots, replacement longer than 255 (the capacity is clamped to L::MAX, the raw room is not)
+        if t[0] == 'str' and INTS[t[1]][0] == 1:
+            for n in (255, 256, 290):
+                cur = img + garbage(rng, 320)
+                add('A', '%s.AL%d' % (cid, n), sid, 0, cur, '(str %s)' % hexs(bytes(0x61 + (j % 26) for j in range(n))),
+                    kind='assign', base=cid, repl=cid, cur_size=size, repl_size=1 + n)
         # ---- default_in_place
     for sid, t in shapes:
         if not has_default(t):
